@@ -33,15 +33,8 @@ func RenameOutput(callable syntax.Callable,
 					oldParam, newParam, pipe, edits)
 			}
 		}
-		// Fix up top-level call if needed.
-		if ast.Call != nil && ast.Call.DecId == callable.GetId() {
-			edits = append(edits, renameCallParamEdit{
-				File:     syntax.DefiningFile(ast.Call),
-				Id:       ast.Call.Id,
-				OldParam: oldParam,
-				NewParam: newParam,
-			})
-		}
+		// The top-level call binds inputs only: an input of the same name
+		// as the output keeps its name.
 	}
 	if len(edits) == 0 {
 		return nil
